@@ -34,6 +34,14 @@ impl<E: Pairing> From<&CommitterKey<E>> for VerifierKey<E> {
     }
 }
 
+#[cfg(feature = "verif-hooks")]
+impl<E: Pairing> CommitterKey<E> {
+    /// Verification hook: the G1 and G2 powers held by this key.
+    pub fn verif_powers(&self) -> (&[E::G1Affine], &[E::G2Affine]) {
+        (&self.powers_of_g, &self.powers_of_g2)
+    }
+}
+
 impl<E: Pairing> CommitterKey<E> {
     /// The setup algorithm for the commitment scheme.
     ///
